@@ -227,14 +227,18 @@ func (c *Ctx) sel(arr T, idx T) T {
 		if d, ok := c.defOf[s]; ok {
 			s = d
 		}
-		if m, isIte := c.ites[s]; isIte && strings.HasPrefix(idx.S, "(selem ") {
-			// a heap merged at a join, read at an element of a slice of structs:
-			// read both sides (keeps such reads in terms of the unmodified heap)
+		if m, isIte := c.ites[s]; isIte {
+			// a heap merged at a join: read both sides. When the object was not
+			// written on either side both reads resolve to the same earlier heap
+			// and the merge disappears (for elements of slices of structs the
+			// merged read is kept as an ite of the two reads).
 			x, y := c.sel(m[1], idx), c.sel(m[2], idx)
 			if x.S == y.S {
 				return x
 			}
-			return ite(m[0], x, y)
+			if strings.HasPrefix(idx.S, "(selem ") {
+				return ite(m[0], x, y)
+			}
 		}
 		info, ok := c.stores[s]
 		if !ok {
@@ -265,7 +269,13 @@ func (c *Ctx) provablyDistinct(a, b T) bool {
 			// ids handed out from different counters never coincide (an id is below
 			// the counter value at every later program point)
 			fa, fb := strings.HasPrefix(ba, "alloc!"), strings.HasPrefix(bb, "alloc!")
-			pa, pb := strings.Contains(ba, "_id!"), strings.Contains(bb, "_id!")
+			isP := func(x string) bool {
+				if !c.idRules() {
+					return strings.Contains(x, "_id!")
+				}
+				return strings.Contains(x, "_id!") || strings.Contains(x, "_sref!") || strings.Contains(x, "_ref!") || strings.Contains(x, "_iref!")
+			}
+			pa, pb := isP(ba), isP(bb)
 			if (fa && fb) || (fa && pb && c.isParamID(bb)) || (fb && pa && c.isParamID(ba)) {
 				return true
 			}
@@ -295,7 +305,7 @@ func (c *Ctx) provablyDistinct(a, b T) bool {
 		bo, _, ok := splitBaseOff(s)
 		return ok && strings.HasPrefix(bo, "alloc!")
 	}
-	if (entryLoaded(a.S) && allocBased(b.S)) || (entryLoaded(b.S) && allocBased(a.S)) {
+	if c.idRules() && ((entryLoaded(a.S) && allocBased(b.S)) || (entryLoaded(b.S) && allocBased(a.S))) {
 		return true
 	}
 	if ga, ok := c.distinctGrp[a.S]; ok {
@@ -509,3 +519,9 @@ func splitBaseOff(s string) (string, int, bool) {
 }
 
 func (c *Ctx) isParamID(sym string) bool { return c.paramIDs[sym] }
+
+// idRules: the generation-time distinctness rules for object ids read from the
+// entry heap and for parameter references are switched on per contract
+// ("simplify entry-ids"): they change the shape of every heap read of the
+// function, and proofs that were tuned without them stay as they were.
+func (c *Ctx) idRules() bool { return c.fc != nil && c.fc.SimplifyIDs }
